@@ -26,12 +26,6 @@ void harness(void)
 	if (h == NULL) { CHECK(slen < 22, "first 22 bytes unavailable"); return; }
 	level = data[20];
 	ASSUME(level <= 1);
-#ifdef BIGHDR
-	/* the upper end of the one-byte length field (where 8-bit arithmetic on length+2 would wrap): only the bytes the
-	 * decoder interprets stay symbolic, the long name is a fixed letter so that the query stays small */
-	ASSUME(data[0] >= 252);
-	for (i = 30; i < S_MAX; ++i) ASSUME(data[i] == 'n');
-#endif
 	ok = decode_level0_header(&h, &the_stream);
 	hl = data[0]; plen = data[21];
 	minlen = level == 0 ? 22 : 25;
@@ -94,10 +88,6 @@ void harness(void)
 				CHECK(h->os_type == LHA_OS_TYPE_UNKNOWN && h->extra_flags == 0, "C05: unrecognised level-0 extended area is ignored");
 			}
 		}
-#ifdef BIGHDR
-		if (hl == 255 && level == 1) WITNESS("level-1 header with the largest length byte accepted");
-		if (hl == 254 && level == 0) WITNESS("level-0 header of 254+2 bytes accepted");
-#endif
 		if (level == 1 && plen == 3 && hl == 28) WITNESS("level 1, 3-byte name");
 		if (level == 0 && plen == 2 && hl == 36) WITNESS("level 0 with Unix area");
 	} else {
